@@ -358,7 +358,8 @@ func (m *ldbManager) Add(transaction Transaction) error {
 	m.changes.Lock()
 	defer m.changes.Unlock()
 
-	frontierIdentifier := GetFrontierIdentifier(db)
+	// compare with the frontier of the store itself, not of the view opened at `previous`
+	frontierIdentifier := GetFrontierIdentifier(NewLevelDBWrapper(m.ldb).Subset(frontierByte))
 
 	if previous == frontierIdentifier {
 		if err := m.ldb.Put(common.JoinBytes(patchByte, common.Uint64ToBytes(identifier.Height)), patch.Dump(), nil); err != nil {
